@@ -7,13 +7,40 @@ namespace AY
 theorem setFlags_flags (n : Node) (f : Flags) : (n.setFlags f).flags = f := by
   cases n <;> rfl
 
+/-- the flags of the node `_maybe_promote` returns: those handed in (`self.__dict__`), with `_safe = False` on a
+    promoted node that was unsafe -/
 theorem maybePromote_flags {sf : Flags} {sk : CompKind} {scs : List (Key × Node)} {o r : Node} {b : Bool}
-    (h : maybePromote sf sk scs o = .ok (r, b)) : r.flags = sf := by
+    (h : maybePromote sf sk scs o = .ok (r, b)) : r.flags = if b then sf else promotedFlags sf o.flags := by
   unfold maybePromote at h
   split at h
   · cases h; rfl
   · repeat' split at h
     all_goals first | (cases h; rfl) | cases h
+
+theorem eSafe_promotedFlags (sf of : Flags) : eSafe (promotedFlags sf of) = (eSafe sf && eSafe of) := by
+  unfold promotedFlags
+  cases h : eSafe of
+  · simp [eSafe]
+  · simp
+
+theorem promotedFlags_safe_false {sf : Flags} (of : Flags) (h : sf.safe = some false) :
+    (promotedFlags sf of).safe = some false := by
+  unfold promotedFlags; split
+  · exact h
+  · rfl
+
+theorem promotedFlags_iSafe (sf of : Flags) : (promotedFlags sf of).iSafe = sf.iSafe := by
+  unfold promotedFlags; split <;> rfl
+
+theorem promotedFlags_dSafe (sf of : Flags) : (promotedFlags sf of).dSafe = sf.dSafe := by
+  unfold promotedFlags; split <;> rfl
+
+/-- an explicit mark handed in is on the returned node, promoted or not -/
+theorem maybePromote_safe_false {sf : Flags} {sk : CompKind} {scs : List (Key × Node)} {o r : Node} {b : Bool}
+    (h : maybePromote sf sk scs o = .ok (r, b)) (hs : sf.safe = some false) : r.flags.safe = some false := by
+  rw [maybePromote_flags h]; split
+  · exact hs
+  · exact promotedFlags_safe_false _ hs
 
 theorem propagate_flags (n : Node) : (propagate n).flags = n.flags := by
   cases n with
